@@ -46,8 +46,8 @@ def generate(cluster, mod, rem, workers=3, timeout=1500):
 
 def plan(tier):
     if tier == 'quick':
-        return [('P', 12), ('U', 400), ('H', 12)]
-    return [('P', 1), ('U', 24), ('H', 1)]
+        return [('P', 100), ('U', 900), ('X', 3000), ('H', 300)]
+    return [('P', 2), ('U', 60), ('X', 200), ('H', 16)]
 
 
 def _exec_chunk(scens):
@@ -126,7 +126,7 @@ def run(chk):
     pl = plan(chk.tier)
     timing = {}
     t0 = time.time()
-    with ThreadPoolExecutor(max_workers=3) as ex:
+    with ThreadPoolExecutor(max_workers=4) as ex:
         gens = list(ex.map(lambda e: generate(e[0], e[1], chk.seed % e[1], workers=3 if quick else 5), pl))
     scens, cs = [], []
     for (cluster, mod), (ss, res) in zip(pl, gens):
@@ -177,7 +177,7 @@ def run(chk):
         r = recs[0]
         chk.samples.append({'call': CALLS[r['cl']], 'config': r['cfg'], 'part': _t(r['part']), 'chosen': r.get('path')})
     chk.rule = ('scenarios enumerated by TLC from specs/PathNameGen.tla (P: path parts x 120 sanitiser configurations; '
-                'U: URLs x 64 structural configurations; H: Content-Disposition values x 3 URLs x 16 configurations) and run '
+                'U: URLs x 64 structural configurations; X: URLs x 120 sanitiser configurations with directories; H: Content-Disposition values x 3 URLs x 16 configurations) and run '
                 'through the real PathNamer / BaseFileWriterSession; distinct = distinct (call, configuration, input); '
                 'non-trivial = not (safe_filename returned its argument unchanged)')
     chk.exhaustive = all(mod == 1 for (_, mod) in pl)
@@ -201,3 +201,34 @@ def replay(chk, path):
         print('outcome', rec['oc'], rec['exc'], 'prefixed', rec['pre'], 'inside', rec['inside'],
               'parts', [ascii(_t(p)) for p in rec['parts']])
     return 0
+
+
+def selftest(chk):
+    """Binding self-test: a corrupted log field must be rejected by the strict spec / flagged by the monitor."""
+    import copy
+    scens, res = generate('H', 5000, 0, workers=2)
+    tlc.require_ok(res, 'generator H')
+    recs = [r for r in execute(scens[:400]) if r is not None]
+    good = next(r for r in recs if r['oc'] == 'value' and len(r['parts']) >= 2 and r['os'] == 'unix')
+    c1 = copy.deepcopy(good)
+    c1['parts'][-1] = c1['parts'][-1][:-1] + [c1['parts'][-1][-1] + 1]      # one character of the chosen path
+    c2 = copy.deepcopy(good)
+    c2['parts'] = c2['parts'][1:]                                            # one directory level
+    c3 = copy.deepcopy(good)
+    c3['oc'] = 'valueerror'                                                  # the outcome
+    sv, _ = strict([{'ev': [{k: r[k] for k in TRACE_FIELDS}]} for r in (good, c1, c2, c3)])
+    print('strict spec: original accepted=%s, corrupted accepted=%s' % (sv[0]['accepted'], [v['accepted'] for v in sv[1:]]))
+    strict_ok = [v['accepted'] for v in sv] == [True, False, False, False]
+    d1 = copy.deepcopy(good)
+    d1['parts'][0] = [46, 46]                                                # ".." component
+    d2 = copy.deepcopy(good)
+    d2['inside'] = False
+    d3 = copy.deepcopy(good)
+    d3['pre'] = False
+    d4 = copy.deepcopy(good)
+    d4['oc'] = 'other'
+    mv, _ = monitor([{'ev': [{k: r[k] for k in MON_FIELDS}]} for r in (good, d1, d2, d3, d4)])
+    print('monitor masks (good, dot-dot component, outside, not prefixed, raised):', [v['bad'] for v in mv])
+    mon_ok = [v['bad'] for v in mv] == [0, 4, 8, 2, 1]
+    print('SELFTEST', 'ok' if strict_ok and mon_ok else 'FAILED')
+    return 0 if strict_ok and mon_ok else 2
